@@ -29,3 +29,17 @@ CHECKS["C18"] = dict(
     jobs=[dict(name="pure", pkg="./pure", go=GO, test="TestC18", shards=(1, 4), checks=(20000, 250000),
                timeout=(300, 1800))],
 )
+
+CHECKS["C02"] = dict(
+    rule=("rapid-generated frame descriptions over the product service shape x cEMI kind (14 shapes, 11 cEMI kinds; cell drawn "
+          "uniformly), all fields over the ranges quantified in the statement; each is (1) built as a library value, encoded, decoded "
+          "and compared field by field incl. dynamic type, service id and message code, (2) encoded by the independent reference "
+          "encoder, decoded by the library, re-encoded, decoded again and compared. Non-trivial = frame with a nested cEMI message or "
+          "a description block; distinct by reference encoding."),
+    level_text=("Sampled exploration of the value space with an exact round-trip oracle and an independent reference encoder for the "
+                "decode-first half; every service x cEMI cell is hit (histogram in the evidence)."),
+    level_note="Trusted: harness/common/ref.go (reference encoder), Canon/SameValue (nil and empty slices identified). Values outside the quantified ranges (MAC != 6 bytes, names with NUL) are excluded as the wire format cannot carry them.",
+    technique="rapid property-based round trip + differential against an independent reference encoder; native fuzzing of the decode-first half (thorough)",
+    assumptions=["'accepts the whole encoding' is read as: Unpack of the complete encoding returns no error and consumes no more than its length"],
+    jobs=[dict(name="pure", pkg="./pure", go=GO, test="TestC02", shards=(2, 16), checks=(40000, 600000), timeout=(300, 3000))],
+)
